@@ -201,26 +201,54 @@ GreHdr(L) == PackBits(<<<<L.c, 1>>, <<0, 1>>, <<L.k, 1>>, <<L.sq, 1>>, <<0, 1>>,
              \o (IF L.c = 1 THEN U16(L.csum) \o U16(L.offset) ELSE <<>>)
              \o (IF L.k = 1 THEN L.key ELSE <<>>) \o (IF L.sq = 1 THEN L.seq ELSE <<>>)
 
-\* DNS messages (RFC 1035 4.1).  A name is a sequence of labels (byte strings);
-\* on the wire: length-prefixed labels and a zero byte, or (4.1.4, optional for
-\* the sender) a two-byte pointer 11xxxxxx xxxxxxxx to an earlier occurrence.
-\* cmp = 0: no compression; cmp = 1: a name that is identical to one written
-\* earlier in the message is replaced by a pointer to its first occurrence.
+\* DNS messages (RFC 1035 4.1).  A name is a sequence of labels (byte strings).
+\* On the wire (4.1.4) a name is a sequence of length-prefixed labels ending in
+\* a zero byte, or a two-byte pointer 11xxxxxx xxxxxxxx to a prior occurrence,
+\* or a sequence of labels ending with such a pointer.  Compression is optional
+\* for the sender, so the serialisation of a message is not unique.  The layer
+\* field cmp names the sender's style:
+\*   0  no compression
+\*   1  a name identical to one written out in full earlier becomes a pointer
+\*   2  the longest suffix that starts at any label written out earlier (itself
+\*      possibly ending in a pointer) is replaced by a pointer to its first
+\*      occurrence: pointers into the middle of names and pointer chains
+\*   3  as 2, but only the first label of an earlier name (however that name
+\*      ends) is a pointer target
+\* What every receiver must accept - and all that may be demanded of a sender -
+\* is DnsValid below: the bytes decode to the message, pointers point backwards.
 \* question: [name, qtype, qclass]; record: [name, type, class, ttl, rd] where
 \* rd = [k |-> "raw", d |-> bytes] or [k |-> "name", d |-> name] (NS, CNAME, PTR).
 NameTypes == {2, 5, 12}
-Labels(name) == Concat([i \in 1..Len(name) |-> <<Len(name[i])>> \o name[i]]) \o <<0>>
+DnsStyles == 0..3
+LabelsOnly(ls) == Concat([i \in 1..Len(ls) |-> <<Len(ls[i])>> \o ls[i]])
+Labels(name) == LabelsOnly(name) \o <<0>>
+Suffix(name, k) == SubSeq(name, k + 1, Len(name))            \* the name without its first k labels
+NamePtr(at) == <<192 + at \div 256, at % 256>>
+\* seen: <<name, offset>> pairs = the pointer targets the sender remembers
 SeenAt(seen, name) == LET js == {j \in 1..Len(seen) : seen[j][1] = name}
                       IN IF js = {} THEN 0 - 1 ELSE seen[CHOOSE j \in js : \A k \in js : j <= k][2]
+RECURSIVE CutAt(_, _, _)
+CutAt(seen, name, k) ==         \* least k such that the name without its first k labels is a known target
+  IF k >= Len(name) THEN Len(name)
+  ELSE IF SeenAt(seen, Suffix(name, k)) >= 0 THEN k ELSE CutAt(seen, name, k + 1)
+\* number of leading labels written out (all of them: the name ends in the zero byte, no pointer)
+Lit(seen, name, cmp) ==
+  CASE cmp = 0 -> Len(name)
+    [] cmp = 1 -> IF Len(name) > 0 /\ SeenAt(seen, name) >= 0 THEN 0 ELSE Len(name)
+    [] OTHER   -> CutAt(seen, name, 0)
 NameBytes(seen, name, cmp) ==
-  LET at == SeenAt(seen, name)
-  IN IF cmp = 1 /\ at >= 0 THEN <<192 + at \div 256, at % 256>> ELSE Labels(name)
-\* st = [s |-> bytes so far, seen |-> <<name, offset>> pairs of names written out in full]
+  LET k == Lit(seen, name, cmp)
+  IN IF k = Len(name) THEN Labels(name)
+     ELSE LabelsOnly(SubSeq(name, 1, k)) \o NamePtr(SeenAt(seen, Suffix(name, k)))
+\* targets added by a name written at offset off with its first k labels spelled out
+Targets(seen, name, k, off, cmp) ==
+  CASE cmp \in {0, 1} -> IF k = Len(name) /\ k > 0 THEN Append(seen, <<name, off>>) ELSE seen
+    [] cmp = 2 -> seen \o [j \in 1..k |-> <<Suffix(name, j - 1), off + Len(LabelsOnly(SubSeq(name, 1, j - 1)))>>]
+    [] OTHER   -> IF k > 0 THEN Append(seen, <<name, off>>) ELSE seen
+\* st = [s |-> bytes so far, seen |-> targets]
 PutName(st, name, cmp, shift) ==
-  LET enc == NameBytes(st.seen, name, cmp)
-  IN [s |-> st.s \o enc,
-      seen |-> IF Len(enc) = 2 /\ Len(name) > 0 /\ enc[1] >= 192 THEN st.seen
-               ELSE Append(st.seen, <<name, Len(st.s) + shift>>)]
+  [s |-> st.s \o NameBytes(st.seen, name, cmp),
+   seen |-> Targets(st.seen, name, Lit(st.seen, name, cmp), Len(st.s) + shift, cmp)]
 PutQ(st, q, cmp) == LET t == PutName(st, q.name, cmp, 0) IN [t EXCEPT !.s = t.s \o U16(q.qtype) \o U16(q.qclass)]
 PutRR(st, r, cmp) ==
   LET t  == PutName(st, r.name, cmp, 0)
@@ -239,39 +267,59 @@ DnsBytes(L) ==
       s1 == PutAll(s0, L.qs, 1, L.cmp, TRUE)
   IN PutAll(s1, L.ans \o L.auth \o L.add, 1, L.cmp, FALSE).s
 
-\* reading a name: [ok, name, next (index after the name in the enclosing sequence), ptr (a pointer was followed)]
+\* every name of a message, in wire order
+DnsNames(L) ==
+  LET rrs == L.ans \o L.auth \o L.add
+  IN [i \in 1..Len(L.qs) |-> L.qs[i].name]
+     \o Concat([i \in 1..Len(rrs) |-> IF rrs[i].rd.k = "name" THEN <<rrs[i].name, rrs[i].rd.d>> ELSE <<rrs[i].name>>])
+Suffixes(n) == {Suffix(n, k) : k \in 0..(Len(n) - 1)}          \* the non-empty ones
+\* two different names have a suffix in common: how much of it is compressed is up to the sender
+\* (written as a set comparison: TLC would take an \E inside an action for a choice of successor)
+SharesSuffix(L) ==
+  LET ns == DnsNames(L)
+  IN {x \in (1..Len(ns)) \X (1..Len(ns)) :
+        x[1] < x[2] /\ ns[x[1]] # ns[x[2]] /\ Suffixes(ns[x[1]]) \cap Suffixes(ns[x[2]]) # {}} # {}
+
+\* reading a name: [ok, name, next (index after the name in the enclosing sequence), ptr (a pointer was
+\* followed), back (every pointer followed points to an earlier position than its own)]
+NoName(i) == [ok |-> FALSE, name |-> <<>>, next |-> i, ptr |-> FALSE, back |-> TRUE]
 RECURSIVE ReadName(_, _, _)
 ReadName(b, i, depth) ==
-  IF i > Len(b) \/ depth > 8 THEN [ok |-> FALSE, name |-> <<>>, next |-> i, ptr |-> FALSE]
-  ELSE IF b[i] = 0 THEN [ok |-> TRUE, name |-> <<>>, next |-> i + 1, ptr |-> FALSE]
+  IF i > Len(b) \/ depth > 8 THEN NoName(i)
+  ELSE IF b[i] = 0 THEN [ok |-> TRUE, name |-> <<>>, next |-> i + 1, ptr |-> FALSE, back |-> TRUE]
   ELSE IF b[i] >= 192 THEN
-         IF i + 1 > Len(b) THEN [ok |-> FALSE, name |-> <<>>, next |-> i, ptr |-> FALSE]
-         ELSE LET r == ReadName(b, (b[i] - 192) * 256 + b[i + 1] + 1, depth + 1)
-              IN [ok |-> r.ok, name |-> r.name, next |-> i + 2, ptr |-> TRUE]
-  ELSE IF b[i] > 63 \/ i + b[i] > Len(b) THEN [ok |-> FALSE, name |-> <<>>, next |-> i, ptr |-> FALSE]
+         IF i + 1 > Len(b) THEN NoName(i)
+         ELSE LET t == (b[i] - 192) * 256 + b[i + 1] + 1
+                  r == ReadName(b, t, depth + 1)
+              IN [ok |-> r.ok, name |-> r.name, next |-> i + 2, ptr |-> TRUE, back |-> r.back /\ t < i]
+  ELSE IF b[i] > 63 \/ i + b[i] > Len(b) THEN NoName(i)
   ELSE LET r == ReadName(b, i + 1 + b[i], depth)
-       IN [ok |-> r.ok, name |-> <<SubSeq(b, i + 1, i + b[i])>> \o r.name, next |-> r.next, ptr |-> r.ptr]
+       IN [ok |-> r.ok, name |-> <<SubSeq(b, i + 1, i + b[i])>> \o r.name, next |-> r.next, ptr |-> r.ptr, back |-> r.back]
+\* [ok, xs, next, ptr, back, tight (a name in RDATA fills exactly RDLENGTH bytes)]
+NoRecs(i) == [ok |-> FALSE, xs |-> <<>>, next |-> i, ptr |-> FALSE, back |-> TRUE, tight |-> TRUE]
 RECURSIVE ReadQs(_, _, _), ReadRRs(_, _, _)
-ReadQs(b, i, k) ==            \* [ok, xs, next, ptr]
-  IF k = 0 THEN [ok |-> TRUE, xs |-> <<>>, next |-> i, ptr |-> FALSE]
+ReadQs(b, i, k) ==
+  IF k = 0 THEN [ok |-> TRUE, xs |-> <<>>, next |-> i, ptr |-> FALSE, back |-> TRUE, tight |-> TRUE]
   ELSE LET n == ReadName(b, i, 0)
-       IN IF ~n.ok \/ n.next + 3 > Len(b) THEN [ok |-> FALSE, xs |-> <<>>, next |-> i, ptr |-> FALSE]
+       IN IF ~n.ok \/ n.next + 3 > Len(b) THEN NoRecs(i)
           ELSE LET r == ReadQs(b, n.next + 4, k - 1)
-               IN [ok |-> r.ok, next |-> r.next, ptr |-> n.ptr \/ r.ptr,
+               IN [ok |-> r.ok, next |-> r.next, ptr |-> n.ptr \/ r.ptr, back |-> n.back /\ r.back, tight |-> TRUE,
                    xs |-> <<[name |-> n.name, qtype |-> N16(b, n.next), qclass |-> N16(b, n.next + 2)]>> \o r.xs]
 ReadRRs(b, i, k) ==
-  IF k = 0 THEN [ok |-> TRUE, xs |-> <<>>, next |-> i, ptr |-> FALSE]
+  IF k = 0 THEN [ok |-> TRUE, xs |-> <<>>, next |-> i, ptr |-> FALSE, back |-> TRUE, tight |-> TRUE]
   ELSE LET n == ReadName(b, i, 0)
-       IN IF ~n.ok \/ n.next + 9 > Len(b) THEN [ok |-> FALSE, xs |-> <<>>, next |-> i, ptr |-> FALSE]
+       IN IF ~n.ok \/ n.next + 9 > Len(b) THEN NoRecs(i)
           ELSE LET ty  == N16(b, n.next)
                    len == N16(b, n.next + 8)
                    at  == n.next + 10
-               IN IF at + len - 1 > Len(b) THEN [ok |-> FALSE, xs |-> <<>>, next |-> i, ptr |-> FALSE]
+               IN IF at + len - 1 > Len(b) THEN NoRecs(i)
                   ELSE LET dn == ReadName(b, at, 0)
                            isn == ty \in NameTypes
                            rd == IF isn THEN [k |-> "name", d |-> dn.name] ELSE [k |-> "raw", d |-> SubSeq(b, at, at + len - 1)]
                            r  == ReadRRs(b, at + len, k - 1)
                        IN [ok |-> r.ok /\ (isn => dn.ok), next |-> r.next, ptr |-> n.ptr \/ r.ptr \/ (isn /\ dn.ptr),
+                           back |-> n.back /\ r.back /\ (isn => dn.back),
+                           tight |-> r.tight /\ (isn => dn.next = at + len),
                            xs |-> <<[name |-> n.name, type |-> ty, class |-> N16(b, n.next + 2),
                                      ttl |-> SubSeq(b, n.next + 4, n.next + 7), rd |-> rd]>> \o r.xs]
 
@@ -462,17 +510,21 @@ DecRip(b) ==
                                       DecFixed(LRipE, SubSeq(b, 20 * i - 15, 20 * i + 4))]]
          @@ DecFixed(LRip, b)>>
 
-DecDns(b) ==
-  IF Len(b) < 12 THEN RawL(b)
+\* [ok, L (the message), next (index after the last record), back, tight]
+DecDnsR(b) ==
+  IF Len(b) < 12 THEN [ok |-> FALSE]
   ELSE LET h == DecFixed(LDns, b)
            q == ReadQs(b, 13, h.qd)
            a == ReadRRs(b, q.next, h.an)
            n == ReadRRs(b, a.next, h.ns)
            x == ReadRRs(b, n.next, h.ar)
        IN IF q.ok /\ a.ok /\ n.ok /\ x.ok
-          THEN <<[p |-> "dns", qs |-> q.xs, ans |-> a.xs, auth |-> n.xs, add |-> x.xs,
-                  cmp |-> IF q.ptr \/ a.ptr \/ n.ptr \/ x.ptr THEN 1 ELSE 0] @@ h>>
-          ELSE RawL(b)
+          THEN [ok |-> TRUE, next |-> x.next, back |-> q.back /\ a.back /\ n.back /\ x.back,
+                tight |-> a.tight /\ n.tight /\ x.tight,
+                L |-> [p |-> "dns", qs |-> q.xs, ans |-> a.xs, auth |-> n.xs, add |-> x.xs,
+                       cmp |-> IF q.ptr \/ a.ptr \/ n.ptr \/ x.ptr THEN 1 ELSE 0] @@ h]
+          ELSE [ok |-> FALSE]
+DecDns(b) == LET r == DecDnsR(b) IN IF r.ok THEN <<r.L>> ELSE RawL(b)
 
 DecUdp(b) ==
   IF Len(b) < 8 THEN RawL(b)
@@ -590,11 +642,38 @@ Expand(s) == [i \in 1..Len(s) |-> IF s[i].p = "raw" THEN [p |-> "rawb", data |->
 NormLayer(L) == IF L.p = "tcp" THEN [L EXCEPT !.opts = StripEol(L.opts)]
                 ELSE IF L.p = "dhcp" THEN [L EXCEPT !.opts = StripPads(L.opts)]
                 ELSE IF L.p = "dns" THEN [L EXCEPT !.cmp = 0] ELSE L       \* whether names were compressed is not a field
+\* ---- messages whose serialisation is free-form.  When different names of a DNS
+\* message share a suffix the sender may compress any part of any of them against
+\* any earlier occurrence: the styles of DnsBytes are examples, not the set of
+\* legal serialisations.  For such a stack the oracle does not predict the bytes
+\* a sender produces; it judges them (Encodes).  (Without a shared suffix the only
+\* choice is whether a repeated name becomes a pointer: styles 0 and 1.)
+FreeForm(s) == Len(s) > 0 /\ s[Len(s)].p = "dns" /\ SharesSuffix(s[Len(s)])
+StylesOf(s) == IF Len(s) = 0 \/ s[Len(s)].p # "dns" THEN {0} ELSE IF FreeForm(s) THEN DnsStyles ELSE {0, 1}
 \* serialisations that differ only in what carries no information: where DHCP
-\* pad options are placed, whether repeated DNS names are compressed
-PadVariants(s) == {s, [i \in 1..Len(s) |-> IF s[i].p = "dhcp" THEN [s[i] EXCEPT !.opts = EvenPadded(StripPads(s[i].opts))]
-                                           ELSE IF s[i].p = "dns" THEN [s[i] EXCEPT !.cmp = 1 - s[i].cmp]
-                                           ELSE s[i]]}
+\* pad options are placed, how DNS names are compressed
+WithStyle(s, c) == [i \in 1..Len(s) |-> IF s[i].p = "dns" THEN [s[i] EXCEPT !.cmp = c] ELSE s[i]]
+PadVariants(s) == {[i \in 1..Len(s) |-> IF s[i].p = "dhcp" THEN [s[i] EXCEPT !.opts = EvenPadded(StripPads(s[i].opts))] ELSE s[i]]}
+                  \cup {WithStyle(s, c) : c \in StylesOf(s)}
+\* b is a serialisation of the DNS message L: it decodes - following its pointers,
+\* each of which points backwards - to exactly L and nothing is left over
+DnsValid(b, L) ==
+  LET r == DecDnsR(b)
+  IN /\ r.ok /\ r.back /\ r.tight /\ r.next = Len(b) + 1
+     /\ NormLayer(r.L) = NormLayer(Fill(L, <<>>, NoLayer))
+\* w is a serialisation of the free-form stack s: its last Len(w) - (headers) bytes
+\* are a serialisation of the DNS message, and every enclosing header is the one
+\* the oracle computes around those bytes (lengths, checksums)
+Outer(s) == SubSeq(s, 1, Len(s) - 1)
+Around(s, body) == Outer(s) \o <<[p |-> "rawb", data |-> body]>>
+Encodes(w, s) ==
+  LET n == Len(EncStack(Outer(s)))           \* the size of the enclosing headers does not depend on what they enclose
+  IN /\ Len(w) >= n
+     /\ LET body == Drop(w, n)
+        IN w = EncStack(Around(s, body)) /\ DnsValid(body, s[Len(s)])
+\* the completed stack that goes with such a serialisation
+FillAs(s, w) == LET v == FillStack(Around(s, Drop(w, Len(EncStack(Outer(s))))))
+                IN [v EXCEPT ![Len(s)] = Fill(s[Len(s)], <<>>, NoLayer)]
 Norm(s) == [i \in 1..Len(s) |-> NormLayer(s[i])]
 PayLen(s) == IF Len(s) = 0 THEN 0
              ELSE LET L == s[Len(s)] IN IF L.p = "raw" THEN L.n ELSE IF L.p = "rawb" THEN Len(L.data) ELSE 0
